@@ -24,6 +24,11 @@ var (
 	nul = byte('\000')
 )
 
+// maxNestingDepth is the nesting limit of Compact and Indent; the decoder and
+// encoding/json use the same value. Without it the recursion depth (and for
+// Indent the output size, which is quadratic in the depth) is unbounded.
+const maxNestingDepth = 10000
+
 func Compact(buf *bytes.Buffer, src []byte, escape bool) error {
 	if len(src) == 0 {
 		return errors.ErrUnexpectedEndOfJSON("", 0)
@@ -56,7 +61,7 @@ func compactAndWrite(buf *bytes.Buffer, dst []byte, src []byte, escape bool) err
 }
 
 func compact(dst, src []byte, escape bool) ([]byte, error) {
-	buf, cursor, err := compactValue(dst, src, 0, escape)
+	buf, cursor, err := compactValue(dst, src, 0, 0, escape)
 	if err != nil {
 		return nil, err
 	}
@@ -91,18 +96,18 @@ LOOP:
 	return cursor
 }
 
-func compactValue(dst, src []byte, cursor int64, escape bool) ([]byte, int64, error) {
+func compactValue(dst, src []byte, cursor, depth int64, escape bool) ([]byte, int64, error) {
 	for {
 		switch src[cursor] {
 		case ' ', '\t', '\n', '\r':
 			cursor++
 			continue
 		case '{':
-			return compactObject(dst, src, cursor, escape)
+			return compactObject(dst, src, cursor, depth+1, escape)
 		case '}':
 			return nil, 0, errors.ErrSyntax("unexpected character '}'", cursor)
 		case '[':
-			return compactArray(dst, src, cursor, escape)
+			return compactArray(dst, src, cursor, depth+1, escape)
 		case ']':
 			return nil, 0, errors.ErrSyntax("unexpected character ']'", cursor)
 		case '"':
@@ -121,7 +126,10 @@ func compactValue(dst, src []byte, cursor int64, escape bool) ([]byte, int64, er
 	}
 }
 
-func compactObject(dst, src []byte, cursor int64, escape bool) ([]byte, int64, error) {
+func compactObject(dst, src []byte, cursor, depth int64, escape bool) ([]byte, int64, error) {
+	if depth > maxNestingDepth {
+		return nil, 0, errors.ErrExceededMaxDepth(src[cursor], cursor)
+	}
 	if src[cursor] == '{' {
 		dst = append(dst, '{')
 	} else {
@@ -144,7 +152,7 @@ func compactObject(dst, src []byte, cursor int64, escape bool) ([]byte, int64, e
 			return nil, 0, errors.ErrExpected("colon after object key", cursor)
 		}
 		dst = append(dst, ':')
-		dst, cursor, err = compactValue(dst, src, cursor+1, escape)
+		dst, cursor, err = compactValue(dst, src, cursor+1, depth, escape)
 		if err != nil {
 			return nil, 0, err
 		}
@@ -163,7 +171,10 @@ func compactObject(dst, src []byte, cursor int64, escape bool) ([]byte, int64, e
 	}
 }
 
-func compactArray(dst, src []byte, cursor int64, escape bool) ([]byte, int64, error) {
+func compactArray(dst, src []byte, cursor, depth int64, escape bool) ([]byte, int64, error) {
+	if depth > maxNestingDepth {
+		return nil, 0, errors.ErrExceededMaxDepth(src[cursor], cursor)
+	}
 	if src[cursor] == '[' {
 		dst = append(dst, '[')
 	} else {
@@ -176,7 +187,7 @@ func compactArray(dst, src []byte, cursor int64, escape bool) ([]byte, int64, er
 	}
 	var err error
 	for {
-		dst, cursor, err = compactValue(dst, src, cursor, escape)
+		dst, cursor, err = compactValue(dst, src, cursor, depth, escape)
 		if err != nil {
 			return nil, 0, err
 		}
